@@ -1,6 +1,7 @@
 package vc
 
 import (
+	"encoding/json"
 	"flag"
 	"fmt"
 	"os"
@@ -19,6 +20,12 @@ func Main(args []string) int {
 		return cmdVerify(args[1:])
 	case "check":
 		return cmdCheck(args[1:])
+	case "replay":
+		if len(args) < 2 {
+			fmt.Fprintln(os.Stderr, "usage: loxvc replay <file>")
+			return 2
+		}
+		return cmdReplay(args[1])
 	case "keys":
 		v, err := Load(args[1], []string{"."}, nil)
 		if err != nil {
@@ -145,3 +152,28 @@ func displayName(key string) string {
 	return key
 }
 
+
+// cmdReplay shows a replay record and, where it names a solver query, re-runs the
+// query so that the failed obligation can be inspected again.
+func cmdReplay(path string) int {
+	data, err := os.ReadFile(path)
+	if err != nil {
+		fmt.Fprintln(os.Stderr, err)
+		return 2
+	}
+	fmt.Println(string(data))
+	var m map[string]any
+	if json.Unmarshal(data, &m) != nil {
+		return 0
+	}
+	if q, ok := m["query"].(string); ok {
+		if _, err := os.Stat(q); err == nil {
+			out, _ := runCmd("/verif", 2*time.Minute, "z3-new", "-T:60", q)
+			fmt.Printf("re-run of %s with z3 5.1.0: %s\n", q, strings.TrimSpace(out))
+		}
+	}
+	if lbl, _ := m["label"].(string); lbl == "bounded" {
+		fmt.Printf("bounded witness: re-run ./check %v quick to execute the input against the current tree\n", m["property"])
+	}
+	return 0
+}
